@@ -325,6 +325,10 @@ theorem inv8_step {fp : FdlParams} (hfp : FpOk fp) {g g' : G} (hI : Inv fp g) (h
     cases hev : g.m.lastEvents.peripheral with
     | none => exact ⟨h8.slot, h8.await⟩
     | some he =>
+      cases hsv : g.staleEv with
+      | true => simp only [↓reduceIte]; exact ⟨h8.slot, h8.await⟩
+      | false =>
+      simp only [Bool.false_eq_true, ↓reduceIte]
       refine ⟨?_, ?_⟩
       · intro j q hq
         show J8 (g.upd he.index (sgTake he.ev) j) q
